@@ -176,21 +176,12 @@ Definition bind_eval (o : option lexpr) : option lval :=
 Lemma subst_eval : forall le lv e,
   (forall n, bind_eval (le n) = lv n) -> bind_eval (subst le e) = eval_with lv e.
 Proof.
-  intros le lv e H. induction e; cbn [subst eval_with].
-  - reflexivity.
-  - apply H.
-  - rewrite <- IHe1, <- IHe2.
+  intros le lv e H. induction e; cbn [subst eval_with];
+    [ reflexivity | apply H | | | | ];
+    rewrite <- IHe1, <- IHe2;
     destruct (subst le e1) as [a|]; destruct (subst le e2) as [b|]; cbn [bind_eval];
-      unfold eval_closed; cbn [eval_with]; try reflexivity.
-    destruct (eval_with (fun _ => None) a) as [[| |]|]; reflexivity.
-  - rewrite <- IHe1, <- IHe2.
-    destruct (subst le e1) as [a|]; destruct (subst le e2) as [b|]; cbn [bind_eval];
-      unfold eval_closed; cbn [eval_with]; try reflexivity.
-    destruct (eval_with (fun _ => None) a) as [[| |]|]; reflexivity.
-  - rewrite <- IHe1, <- IHe2.
-    destruct (subst le e1) as [a|]; destruct (subst le e2) as [b|]; cbn [bind_eval];
-      unfold eval_closed; cbn [eval_with]; try reflexivity.
-    destruct (eval_with (fun _ => None) a) as [[| |]|]; reflexivity.
+      unfold eval_closed; cbn [eval_with]; try reflexivity;
+    destruct (eval_with (fun _ => None) a) as [[| | |]|]; reflexivity.
 Qed.
 
 Lemma inline_lookup_eval : forall above n, bind_eval (inline_lookup above n) = lookup_above above n.
@@ -205,6 +196,8 @@ Proof.
   intros le e. induction e; intros e' H S; cbn [subst] in S.
   - inversion S. reflexivity.
   - eapply H; eauto.
+  - destruct (subst le e1) as [a|]; [|discriminate]. destruct (subst le e2) as [b|]; [|discriminate].
+    inversion S. cbn [ref_free]. rewrite (IHe1 a), (IHe2 b); auto.
   - destruct (subst le e1) as [a|]; [|discriminate]. destruct (subst le e2) as [b|]; [|discriminate].
     inversion S. cbn [ref_free]. rewrite (IHe1 a), (IHe2 b); auto.
   - destruct (subst le e1) as [a|]; [|discriminate]. destruct (subst le e2) as [b|]; [|discriminate].
@@ -255,4 +248,90 @@ Proof.
       { rewrite <- E, <- Ce. unfold eval_closed. apply eval_with_ext. reflexivity. }
       rewrite X, P. reflexivity.
     + rewrite C in E. discriminate.
+Qed.
+
+(* ---- null ------------------------------------------------------------------------------------------------------- *)
+
+(* a local set to null EXISTS: below its block (and below any number of blocks that do not set the name again) the name
+   is defined and null -- whatever an earlier block said about it *)
+Lemma null_redefinition_hides : forall before b between vars n,
+  decode_locals (before ++ b :: between) = Some vars ->
+  assoc n b = Some (ELit LNull) ->
+  (forall m, In m between -> assoc n m = None) ->
+  assoc n vars = Some LNull.
+Proof.
+  intros before b between vars n H Hb Hm.
+  rewrite (locals_reach_any_block before b between vars n (ELit LNull) H Hb Hm). reflexivity.
+Qed.
+
+Lemma parse_hcl_fields_is_spec : forall blocks attrs, parse_hcl_fields blocks attrs = spec_fields blocks attrs.
+Proof.
+  intros blocks attrs. unfold parse_hcl_fields, spec_fields, decode_locals.
+  pose proof (decode_locals_from_spec blocks [] [] (fun n => eq_refl) eq_refl) as H.
+  rewrite app_nil_r in H.
+  destruct (decode_locals_from [] blocks) as [vars|].
+  - destruct H as [Hd Hl]. rewrite Hd. unfold decode_fields. apply map_opt_ext. intro a. unfold decode_attr.
+    rewrite (eval_with_ext _ _ (snd a) Hl). reflexivity.
+  - rewrite H. reflexivity.
+Qed.
+
+(* an attribute whose value is null: its field is left out, and only a field that can be nil takes it *)
+Lemma decode_fields_null : forall look attrs fs,
+  decode_fields look attrs = Some fs ->
+  forall i a, nth_error attrs i = Some a ->
+    (eval_with look (snd a) = Some LNull -> nth_error fs i = Some None /\ fst a = true) /\
+    (forall v, eval_with look (snd a) = Some v -> v <> LNull -> nth_error fs i = Some (Some v)).
+Proof.
+  intros look attrs. induction attrs as [|x r IH]; intros fs H i a Hi.
+  - destruct i; discriminate.
+  - unfold decode_fields in H. cbn [map_opt] in H.
+    destruct (decode_attr look x) as [y|] eqn:D; [|discriminate].
+    destruct (map_opt (decode_attr look) r) as [ys|] eqn:R; [|discriminate].
+    inversion H; subst fs. destruct i as [|i].
+    + cbn [nth_error] in Hi. inversion Hi; subst a. cbn [nth_error]. unfold decode_attr in D. split.
+      * intro E. rewrite E in D. cbn [field_val] in D. destruct (fst x); [|discriminate]. inversion D. auto.
+      * intros v E Hv. rewrite E in D. destruct v; cbn [field_val] in D; try (inversion D; reflexivity).
+        exfalso. apply Hv. reflexivity.
+    + cbn [nth_error] in Hi |- *. apply (IH ys R i a Hi).
+Qed.
+
+(* ... and the description reads like the one with those attributes deleted from the text: the same fields are
+   present, with the same values, in the same order *)
+Lemma null_attributes_left_out : forall look attrs fs,
+  decode_fields look attrs = Some fs ->
+  decode_fields look (written_attrs look attrs) = Some (filter (@is_some lval) fs).
+Proof.
+  intros look attrs. induction attrs as [|x r IH]; intros fs H.
+  - inversion H. reflexivity.
+  - unfold decode_fields in H. cbn [map_opt] in H.
+    destruct (decode_attr look x) as [y|] eqn:D; [|discriminate].
+    destruct (map_opt (decode_attr look) r) as [ys|] eqn:R; [|discriminate].
+    inversion H; subst fs. specialize (IH ys R).
+    unfold written_attrs. cbn [filter]. unfold decode_attr in D.
+    destruct (eval_with look (snd x)) as [v|] eqn:E; [|discriminate].
+    destruct v; cbn [field_val] in D; cbn [is_null_val negb];
+      try (inversion D; subst y; cbn [is_some]; unfold decode_fields; cbn [map_opt];
+           unfold decode_attr at 1; rewrite E; cbn [field_val];
+           fold (written_attrs look r); unfold decode_fields in IH; rewrite IH; reflexivity).
+    destruct (fst x); [|discriminate]. inversion D; subst y. cbn [is_some]. exact IH.
+Qed.
+
+Lemma parse_hcl_fields_null_left_out : forall blocks attrs fs,
+  parse_hcl_fields blocks attrs = Some fs ->
+  parse_hcl_fields blocks (written_attrs (lookup_above (rev blocks)) attrs) = Some (filter (@is_some lval) fs).
+Proof.
+  intros blocks attrs fs H. rewrite parse_hcl_fields_is_spec in *. unfold spec_fields in *.
+  destruct (defs_ok (rev blocks)); [|discriminate]. apply null_attributes_left_out. exact H.
+Qed.
+
+Lemma null_attribute_leaves_field_out : forall blocks attrs fs,
+  parse_hcl_fields blocks attrs = Some fs ->
+  (forall i a, nth_error attrs i = Some a ->
+     eval_with (lookup_above (rev blocks)) (snd a) = Some LNull -> nth_error fs i = Some None /\ fst a = true) /\
+  parse_hcl_fields blocks (written_attrs (lookup_above (rev blocks)) attrs) = Some (filter (@is_some lval) fs).
+Proof.
+  intros blocks attrs fs H. split; [|apply parse_hcl_fields_null_left_out; exact H].
+  rewrite parse_hcl_fields_is_spec in H. unfold spec_fields in H.
+  destruct (defs_ok (rev blocks)); [|discriminate].
+  intros i a Hi E. exact (proj1 (decode_fields_null _ _ _ H i a Hi) E).
 Qed.
